@@ -583,8 +583,10 @@ func (t *Term) String() string {
 	return sb.String()
 }
 
+var StrDepth = 6
+
 func (t *Term) str(sb *strings.Builder, depth int) {
-	if depth > 6 {
+	if depth > StrDepth {
 		sb.WriteString("…")
 		return
 	}
